@@ -7,7 +7,7 @@ import warnings
 
 from . import gen
 from .c02 import acyclic
-from .common import Batch, Result, canon_json, conv_tree, err_class, raw_parse, render_doc, rng_for
+from .common import Batch, Result, canon_json, conv_tree, err_class, raw_parse, render_doc, rng_for, parse_with
 from .decsnap import full_snapshot, impl_queries, impl_tables, impl_tables_public, model_tables, path_count_of
 
 
@@ -131,7 +131,7 @@ def run(ctx):
         # the switch for charge-conjugate decays concerns CDecay only: with it off, copies are made all the same
         try:
             q0 = DecFileParser.from_string(text)
-            q0.parse(include_ccdecays=False)
+            parse_with(q0, False)
             tabs0 = impl_tables(q0)
         except Exception as e:
             tabs0 = None
@@ -170,10 +170,10 @@ def run(ctx):
                 kind = "modes"
             st = [x for x in particles if rng.random() < 0.25]
             args = {"mothers": [], "modes": [m], "chains": [m, st], "expand": [m], "print": [m, rng.random() < 0.5, rng.random() < 0.5], "dict": [rng.randrange(10)],
-                    "viewer": [m, st], "details": [m], "n": [], "reparse": []}[kind]
+                    "viewer": [m, st], "details": [m], "n": [], "reparse": [rng.choice(["plain", "off-then-plain", "on", "off-then-on"])]}[kind]
             history.append([kind] + args)
 
-            def call(q):
+            def call(q, is_fresh=False):
                 if kind == "mothers":
                     return q.list_decay_mother_names()
                 if kind == "modes":
@@ -201,24 +201,39 @@ def run(ctx):
                 if kind == "n":
                     return q.number_of_decays
                 if kind == "reparse":
-                    q.parse()
+                    # parsing again, whatever was asked of an earlier parse: a plain parse() afterwards answers like a fresh instance
+                    if not is_fresh:
+                        if args[0].startswith("off-then"):
+                            parse_with(q, False)
+                            q.list_decay_mother_names()
+                        if args[0].endswith("on"):
+                            parse_with(q, True)
+                        else:
+                            q.parse()
                     return q.list_decay_mother_names()
 
+            def outcome(q, is_fresh=False):
+                # a query that refuses its arguments (normalising a table whose fractions are all zero) refuses them on the
+                # fresh instance as well: the refusal is the answer that is compared
+                try:
+                    return call(q, is_fresh)
+                except RecursionError:
+                    raise
+                except Exception as e:
+                    return {"raised": type(e).__name__}
+
             try:
-                got = call(p)
-                want = call(fresh())
+                got = outcome(p)
+                want = outcome(fresh(), True)
             except RecursionError:
-                break
-            except Exception as e:
-                res.violation(f"query raised {type(e).__name__}: {e}", dict(case0, history=history), clause="queries")
-                ok = False
                 break
             if canon_json(got) != canon_json(want):
                 res.violation("an answer differs from the answer of a freshly parsed instance", dict(case0, history=history),
                               impl=got if len(canon_json(got)) < 1500 else "…", model=want if len(canon_json(want)) < 1500 else "…", clause="history independence")
                 ok = False
                 break
-            mutate(got, rng)
+            if not (isinstance(got, dict) and "raised" in got):
+                mutate(got, rng)
             if step % 6 == 5 or step == n_steps - 1:
                 snap = full_snapshot(p, chain_budget=2000)
                 if canon_json(snap) != canon_json(ref):
